@@ -310,6 +310,11 @@ class EditStream(HTMLHandlerBase):
         current_stream.title = params['title']
         context = self.create_context(current_stream.title, False)
         if models.MediaFile.count(stream=current_stream) == 0:
+            other = models.Stream.get(directory=params['directory'])
+            if other is not None and other.pk != current_stream.pk:
+                models.db.session.rollback()
+                return flask.make_response(
+                    f'Directory "{html.escape(params["directory"])}" is used by another stream', 400)
             current_stream.directory = params['directory']
         current_stream.marlin_la_url = str_or_none(params['marlin_la_url'])
         current_stream.playready_la_url = str_or_none(params['playready_la_url'])
